@@ -19,11 +19,19 @@ What is modelled (after the repairs fixes/C13_*.patch):
   insertion if the run of equal keys already has an entry with that remote attribute; unknown processes become new
   neighbours.
 * the order in which the messages of the neighbours are processed is a parameter (`recvAll` takes the list of
-  messages in processing order); `sync` uses the fixed order (ascending source rank).
+  messages in processing order); `sync` uses the fixed order (ascending source rank), `syncOrd` any order.  A sync
+  consumes exactly the messages of this sync, one per old neighbour: in arrival-order mode the code probes only the
+  neighbours it has not heard of yet (fixes/C13_syncer_arrival_order_mixes_syncs.patch; with MPI_ANY_SOURCE the
+  message a fast neighbour sends in its *next* sync could be taken instead), so consecutive syncs compose as
+  `sync ∘ sync` and histories are lists of `Step`s (Proofs/C13Add.lean).
 * sequence numbers: `endResize` increments the index set's; `sync` ends with `sourceSeqNo_ = destSeqNo_ = seqNo`.
+* numberer objects with internal state (`receiveItemS … syncS`): the numberer is called exactly when an index is
+  added, on the caller's object, in processing order.
+* the wire format as three lists of field types (`WireLayout`); the lists themselves are regenerated from
+  `calculateMessageSizes`, `packAndSend` and `recvAndUnpack` on every run (Gen/C13.lean, tools/translators/tr_c13.py).
 
-Not modelled: MPI_Pack layout / buffer sizes (calculateMessageSizes), the SLList iterator bookkeeping (`Iterators`,
-`resetIteratorsMap`, `checkReset`).  Core Lean only.
+Not modelled: the bytes MPI_Pack produces, the SLList iterator bookkeeping (`Iterators`, `resetIteratorsMap`,
+`checkReset`).  Core Lean only.
 -/
 namespace DV.C13
 
@@ -249,6 +257,30 @@ def addCopy (st : RankState) (g : Int) (a : Nat) (loc : Nat) (known : List (Nat 
       match known.lookup x.1 with
       | some b => (x.1, insertEntry ⟨g, a, b⟩ x.2)
       | none => x }
+
+/-! ### the wire format (field types only; the three layouts themselves are regenerated from the source: Gen/C13.lean) -/
+
+inductive WireTy where
+  | int | char | global
+deriving DecidableEq, Repr
+
+/-- the typed fields of a message: once per message, once per published index, once per (process, attribute) pair -/
+structure WireLayout where
+  header : List WireTy
+  perIndex : List WireTy
+  perPair : List WireTy
+deriving DecidableEq, Repr
+
+def WireLayout.groupBytes (sz : WireTy → Nat) (l : List WireTy) : Nat := (l.map sz).sum
+
+/-- bytes of a message with `publish` published indices and `pairs` pairs in total, when one field of type `t` takes
+`sz t` bytes in the packed representation -/
+def WireLayout.bytes (L : WireLayout) (sz : WireTy → Nat) (publish pairs : Nat) : Nat :=
+  WireLayout.groupBytes sz L.header + publish * WireLayout.groupBytes sz L.perIndex + pairs * WireLayout.groupBytes sz L.perPair
+
+/-- every field type occurs in `b` at least as often as in `a` -/
+def WireLayout.covers (a b : List WireTy) : Bool :=
+  [WireTy.int, WireTy.char, WireTy.global].all fun t => a.count t ≤ b.count t
 
 /-- `addCopy` on rank `p` of a world -/
 def addCopyAt (w : World) (p : Nat) (g : Int) (a : Nat) (loc : Nat) (known : List (Nat × Nat)) : World :=
